@@ -5,6 +5,7 @@ import JSV.Model.Marshal
 import JSV.Model.Clone
 import JSV.Model.Defaults
 import JSV.Model.Infer
+import JSV.Model.InferEmb
 import JSV.Model.Equal
 import JSV.Model.Hash
 import JSV.Model.Unmarshal
@@ -190,6 +191,56 @@ partial def decodeGoType (j : Lean.Json) : Except String (Option Go.GoType) := d
     pure (some (.struct out))
   | other => throw s!"type descriptor {other}"
 
+/-- is the descriptor of an embedded field's type one the extended model walks or (for non-struct types) leaves alone:
+    a back reference (`type T struct { *T }`) cannot be expanded, and the fields of the standard-library marshaler
+    types are not in the descriptor -/
+def embeddedTypeOk (j : Lean.Json) : Bool :=
+  let k (x : Lean.Json) : String := (x.getObjValAs? String "k").toOption.getD ""
+  let inner := if k j == "ptr" then (j.getObjVal? "e").toOption.getD .null else j
+  if k inner == "ref" then false
+  else if k inner == "named" then k ((inner.getObjVal? "u").toOption.getD .null) != "opaque"
+  else true
+
+/-- structural type descriptor → GoTypeE (embedded fields included); `none` = a sub-case the extended model does not cover -/
+partial def decodeGoTypeE (j : Lean.Json) : Except String (Option Go.GoTypeE) := do
+  let k ← j.getObjValAs? String "k"
+  let sub (key : String) : Except String (Option Go.GoTypeE) := decodeGoTypeE ((j.getObjVal? key).toOption.getD .null)
+  match k with
+  | "basic" =>
+    let kind ← j.getObjValAs? String "kind"
+    pure (some (.basic kind))
+  | "opaque" => pure (some (.basic "Opaque"))
+  | "ref" => pure (some (.ref (← j.getObjValAs? String "name")))
+  | "named" =>
+    match ← sub "u" with
+    | some u => pure (some (.named (← j.getObjValAs? String "name") u))
+    | none => pure none
+  | "ptr" => pure ((← sub "e").map .ptr)
+  | "slice" => pure ((← sub "e").map .slice)
+  | "array" =>
+    let n ← j.getObjValAs? Nat "n"
+    pure ((← sub "e").map (.array n))
+  | "map" =>
+    let key ← j.getObjValAs? String "key"
+    pure ((← sub "e").map (.map (if key == "string" then "String" else key)))
+  | "struct" =>
+    let fs ← match j.getObjVal? "fields" with
+      | .ok (.arr xs) => pure xs.toList
+      | _ => throw "fields"
+    let mut out : List (Go.FieldE Go.GoTypeE) := []
+    for f in fs do
+      let name ← f.getObjValAs? String "name"
+      let tag ← f.getObjValAs? String "tag"
+      let emb := (f.getObjValAs? Bool "embedded").toOption.getD false
+      let exported := (f.getObjValAs? Bool "exported").toOption.getD true
+      let tj := (f.getObjVal? "t").toOption.getD .null
+      if emb && !embeddedTypeOk tj then return none
+      match ← decodeGoTypeE tj with
+      | some t => out := out ++ [{ goName := name, tag := tag, exported := exported, embedded := emb, type := t }]
+      | none => return none
+    pure (some (.struct out))
+  | other => throw s!"type descriptor {other}"
+
 def handleValidate (args : Lean.Json) : Except String Lean.Json := do
   let base := ((getArg args "base").getStr?).toOption.getD ""
   match ← buildUniverse args with
@@ -347,9 +398,18 @@ def handle (op : String) (args : Lean.Json) : Except String Lean.Json := do
     | .err => pure (Lean.Json.mkObj [("model", outcome "unmarshal-error")])
     | _ => pure (Lean.Json.mkObj [("model", outcome "panic")])
   | "infer" =>
-    match ← decodeGoType (getArg args "structure") with
+    -- types without embedded fields: `forType`; with embedded fields: `forTypeE` (the two agree where both apply,
+    -- C16.forTypeE_conservative); `unmodelled` for the sub-cases `decodeGoTypeE` refuses
+    let run : Option (Go.IOpts → Store → Res (Option NodeId × Store)) ←
+      match ← decodeGoType (getArg args "structure") with
+      | some t => pure (some fun (o : Go.IOpts) (st : Store) => Go.forType o 64 t st)
+      | none =>
+        match ← decodeGoTypeE (getArg args "structure") with
+        | some t => pure (some fun (o : Go.IOpts) (st : Store) => Go.forTypeE o 64 t st)
+        | none => pure none
+    match run with
     | none => pure (Lean.Json.mkObj [("model", outcome "unmodelled")])
-    | some t =>
+    | some run =>
       let o := getArg args "opts"
       let ignore := (o.getObjValAs? Bool "ignore").toOption.getD false
       -- the initial table: one schema {type: string} shared by the standard-library marshaler types
@@ -368,7 +428,7 @@ def handle (op : String) (args : Lean.Json) : Except String Lean.Json := do
             tbl := (tbl.filter fun (e : String × NodeId) => e.1 != tn) ++ [(tn, r)]
           | _ => throw "typeSchemas entry does not unmarshal"
       | _ => pure ()
-      match Go.forType { ignore := ignore, schemas := tbl } 64 t st with
+      match run { ignore := ignore, schemas := tbl } st with
       | .ok (some id, st') =>
         match Go.marshal st' id with
         | .ok j => pure (Lean.Json.mkObj [("model", outcome "ok" [("value", encodeJson j)])])
